@@ -1,5 +1,6 @@
 import DeltaModel.Proto
 import DeltaModel.Edits
+import DeltaModel.EditsSubhunk
 /-!
 Model driver for the `edits.*` ops (protocol: /repo/src/verif_hooks/edits.rs).
 A model error (a Rust panic point reached) prints `PANIC <msg>`.
@@ -133,6 +134,16 @@ def stepEdits (line : String) : String :=
             ++ " H=" ++ showBits h.1 ++ ":" ++ showBits h.2
       | _ => "ERR"
     | _, _, _, _, _ => "ERR"
+  | ["edits.subhunks", bs, ks] =>
+    -- kinds: m = removed, p = added, z = context, o = other; answer: blocks `m,m:p,p` joined by `;`
+    let kind? : Char → Option Subhunk.Kind := fun c =>
+      if c = 'm' then some .minus else if c = 'p' then some .plus else if c = 'z' then some .zero
+      else if c = 'o' then some .other else none
+    match bs.toNat?, ks.toList.mapM kind? with
+    | some b, some kinds =>
+      let showIdx := fun (l : List Nat) => ",".intercalate (l.map toString)
+      "ok " ++ ";".intercalate ((Subhunk.subhunks b kinds).map fun blk => showIdx blk.1 ++ ":" ++ showIdx blk.2)
+    | _, _ => "ERR"
   | _ => "ERR"
 
 def main : IO Unit := serve stepEdits
